@@ -1,6 +1,10 @@
 package main
 
 import (
+	"net/http"
+	"net/http/httptest"
+	"time"
+	"github.com/bbva/qed/api/mgmthttp"
 	"bytes"
 	"fmt"
 	"os"
@@ -104,6 +108,52 @@ func backupCmd(out *cq.Out, seed uint64, tier string) {
 				}
 				ops = append(ops, "BList "+cq.List(wl))
 				out.Case(fmt.Sprintf("list:%d:%d", t, st), len(live) > 0)
+			}
+		}
+		if t == 0 {
+			// many backups alive at once (a node that is backed up daily): none of them may disappear unnamed
+			for len(live) < 12 {
+				evs := [][]byte{[]byte(fmt.Sprintf("b%d-%d", t, ev))}
+				ev++
+				s, err := n.AddBulk(evs)
+				if err != nil {
+					out.Violate("C16:add-failed", err.Error(), desc)
+					break
+				}
+				snaps = append(snaps, s...)
+				events = append(events, evs...)
+				ops = append(ops, "BAdd 1")
+				if err := n.CreateBackup(); err != nil {
+					out.Violate("C16:backup-failed", err.Error(), desc)
+					break
+				}
+				live = append(live, bk{nextID, int64(len(events)) - 1})
+				ops = append(ops, "BBackup")
+				hist = append(hist, fmt.Sprintf("add 1; backup -> id %d at version %d", nextID, len(events)-1))
+				nextID++
+			}
+			// a management request that names no existing backup (an identifier beyond 32 bits) removes nothing
+			mg := httptest.NewServer(mgmthttp.NewMgmtHttp(n))
+			for _, b := range live[:2] {
+				for _, big := range []uint64{1<<32 + uint64(b.id), 3<<32 + uint64(b.id), 1<<40 + uint64(b.id)} {
+					if req, err := http.NewRequest("DELETE", fmt.Sprintf("%s/backup?backupID=%d", mg.URL, big), nil); err == nil {
+						if resp, err := (&http.Client{Timeout: 10 * time.Second}).Do(req); err == nil {
+							resp.Body.Close()
+						}
+					}
+					hist = append(hist, fmt.Sprintf("DELETE /backup?backupID=%d (no such backup)", big))
+				}
+			}
+			mg.Close()
+			have := map[int64]bool{}
+			for _, bi := range n.ListBackups() {
+				have[bi.ID] = true
+			}
+			for _, b := range live {
+				if !have[b.id] {
+					out.Violate("C16:backup-vanished-unnamed", fmt.Sprintf("backup %d (version %d) is no longer listed although no request named it: %d backups were taken, then DELETE /backup was sent for identifiers beyond 2^32 only", b.id, b.version, len(live)), desc)
+					break
+				}
 			}
 		}
 		// make sure the identifiers have a hole below an existing backup (the documented flow: delete the oldest, restore a later one)
